@@ -392,6 +392,9 @@ func runC15(r *run) {
 							r.violate(violation{What: "the bridge does not emit exactly when the logger admits the bridge's severity", Input: desc, Expected: fmt.Sprint(admitted), Actual: fmt.Sprint(len(evs) > 0)})
 						}
 					}
+					if L == 7 && len(evs) > 0 {
+						r.violate(violation{What: "a bridge on a logger at Off emitted a record: the logger admits no severity", Input: desc, Actual: obs})
+					}
 					if direct && len(evs) > 0 && n != len(buf) {
 						r.violate(violation{What: "the bridge writer did not report the whole buffer as written", Input: desc, Expected: fmt.Sprint(len(buf)), Actual: fmt.Sprint(n)})
 					}
